@@ -156,8 +156,9 @@ unsigned char* __real_MD5(const unsigned char*, size_t, unsigned char*); unsigne
 }
 
 // symbol covering an address of the executable's static storage (reads .symtab of /proc/self/exe)
+namespace symtab { static std::vector<std::pair<std::pair<uintptr_t, uintptr_t>, std::string> > syms; static bool loaded = false; static uintptr_t bias = 0; }
 static std::string static_symbol(uintptr_t addr) {
-    static std::vector<std::pair<std::pair<uintptr_t, uintptr_t>, std::string> > syms; static bool loaded = false; static uintptr_t bias = 0;
+    using namespace symtab;
     if (!loaded) {
         loaded = true; std::ifstream f("/proc/self/exe", std::ios::binary); std::string d((std::istreambuf_iterator<char>(f)), std::istreambuf_iterator<char>());
         if (d.size() > sizeof(Elf64_Ehdr)) { const Elf64_Ehdr* eh = (const Elf64_Ehdr*)d.data(); const Elf64_Shdr* sh = (const Elf64_Shdr*)(d.data() + eh->e_shoff);
@@ -169,6 +170,19 @@ static std::string static_symbol(uintptr_t addr) {
     }
     uintptr_t v = addr - bias; for (auto& s : syms) if (v >= s.first.first && v < s.first.second) return demangle(s.second.c_str());
     return "unknown-static";
+}
+
+// ============================================================================ snapshot of the library's own writable static objects
+// Every data object of namespace Tins in .data/.bss (namespace-scope and function-local statics, static members; not the guard
+// variables) is copied before the logical threads of a run start and compared after they have finished: whatever the threads'
+// calls changed there outlives the objects the threads owned - hidden process-wide mutable state, whether or not the store
+// was an instrumented instruction (aggregate copies compiled to inline moves are not) and whether or not a result differed.
+namespace snap {
+struct Obj { uintptr_t a; size_t n; std::string name; }; static std::vector<Obj> objs; static std::vector<uint8_t> before; static bool loaded = false;
+static void load() { if (loaded) return; loaded = true; static_symbol((uintptr_t)&mon::__data_start); uintptr_t lo = (uintptr_t)&mon::__data_start, hi = (uintptr_t)&mon::_end;
+    for (auto& s : symtab::syms) { const std::string& nm = s.second; if (nm.find("4Tins") == std::string::npos || nm.compare(0, 4, "_ZGV") == 0) continue; uintptr_t a = s.first.first + symtab::bias, e = s.first.second + symtab::bias; if (a < lo || e > hi) continue; Obj o; o.a = a; o.n = e - a; o.name = nm; objs.push_back(o); } }
+static void take() { load(); size_t tot = 0; for (auto& o : objs) tot += o.n; before.resize(tot); size_t at = 0; for (auto& o : objs) { memcpy(&before[at], (const void*)o.a, o.n); at += o.n; } }
+static std::string changed() { std::string r; size_t at = 0; for (auto& o : objs) { if (memcmp(&before[at], (const void*)o.a, o.n) != 0) { if (!r.empty()) r += "; "; r += demangle(o.name.c_str()); } at += o.n; } return r; }
 }
 
 // ============================================================================ workload
@@ -183,6 +197,16 @@ static Tins::PDU* construct(int dlt, const Bytes& f) {
     switch (dlt) { case gen::DLT_EN10MB_: if (Internals::is_dot3(p, n)) return new Dot3(p, n); return new EthernetII(p, n); case gen::DLT_NULL_: return new Loopback(p, n); case gen::DLT_LINUX_SLL_: return new SLL(p, n);
         case gen::DLT_RAW_: if (n && (p[0] >> 4) == 4) return new IP(p, n); if (n && (p[0] >> 4) == 6) return new IPv6(p, n); return 0; case gen::DLT_IEEE802_11_RADIO_: return new RadioTap(p, n); case gen::DLT_IEEE802_11_: return Dot11::from_bytes(p, n); case gen::DLT_PPI_: return new PPI(p, n); default: return 0; }
 }
+// application-defined layers registered with the library before any thread starts (Allocators::register_allocator): from then on the registry is only read
+template<int N> struct UserLayer : Tins::PDU {
+    static const Tins::PDU::PDUType pdu_flag = (Tins::PDU::PDUType)(Tins::PDU::USER_DEFINED_PDU + N);
+    std::vector<uint8_t> b; UserLayer(const uint8_t* p, uint32_t n) : b(p, p + n) {}
+    UserLayer* clone() const { return new UserLayer(*this); } uint32_t header_size() const { return (uint32_t)b.size(); } Tins::PDU::PDUType pdu_type() const { return pdu_flag; }
+    void write_serialization(uint8_t* d, uint32_t n) { memcpy(d, b.data(), std::min<size_t>(n, b.size())); }
+};
+template<int N> const Tins::PDU::PDUType UserLayer<N>::pdu_flag;
+static const bool g_user_layers_registered = (Tins::Allocators::register_allocator<Tins::IP, UserLayer<1> >(253), Tins::Allocators::register_allocator<Tins::IP, UserLayer<2> >(254),
+                                              Tins::Allocators::register_allocator<Tins::EthernetII, UserLayer<3> >(0x88b5), Tins::Allocators::register_allocator<Tins::EthernetII, UserLayer<4> >(0x88b6), true);
 struct ThreadState { std::unique_ptr<Tins::IPv4Reassembler> reasm; std::unique_ptr<Tins::TCPIP::StreamFollower> fol; uint64_t fol_bytes; ThreadState() : fol_bytes(0) {} };
 static uint64_t H(uint64_t h, const void* p, size_t n) { return fnv1a(p, n, h); }
 static uint64_t Hs(uint64_t h, const std::string& s) { return fnv1a(s, h); }
@@ -230,6 +254,19 @@ static uint64_t run_op(const KV& k, ThreadState& ts, uint64_t h) {
         else if (op == "addr") {
             uint32_t v = (uint32_t)k.u64("v"); IPv4Address a(v); h = Hs(h, a.to_string()); IPv4Address b(a.to_string()); h = Hu(h, (uint32_t)b); IPv6Address c(fmt("2001:db8::%x:%x", v & 0xffff, v >> 16)); h = Hs(h, c.to_string());
             HWAddress<6> m(fmt("00:11:22:%02x:%02x:%02x", v & 0xff, (v >> 8) & 0xff, (v >> 16) & 0xff)); h = Hs(h, m.to_string()); IPv4Range r = a / (int)(24 + v % 8); uint64_t cnt = 0; for (auto it = r.begin(); it != r.end(); ++it) { h = Hu(h, (uint32_t)*it); if (++cnt > 300) break; }
+        }
+        else if (op == "addrclass") {   // classification helpers over addresses of every class (private networks, loopback, multicast, broadcast)
+            uint32_t v = (uint32_t)k.u64("v"); const std::string cand[8] = { fmt("10.%u.%u.1", v & 0xff, (v >> 8) & 0xff), fmt("172.%u.%u.9", 16 + (v & 15), (v >> 8) & 0xff), fmt("192.168.%u.%u", v & 0xff, (v >> 16) & 0xff), fmt("127.0.%u.1", v & 0xff), fmt("%u.1.2.3", 224 + (v & 15)), "255.255.255.255", fmt("11.%u.0.1", v & 0xff), fmt("172.%u.0.1", 32 + (v & 7)) };
+            for (int i = 0; i < 8; ++i) { IPv4Address a(cand[(i + v) % 8]); h = Hu(h, (a.is_private() ? 1 : 0) | (a.is_loopback() ? 2 : 0) | (a.is_multicast() ? 4 : 0) | (a.is_unicast() ? 8 : 0) | (a.is_broadcast() ? 16 : 0)); }
+            const std::string c6[4] = { "::1", fmt("ff02::%x", v & 0xffff), fmt("fe80::%x", v & 0xffff), fmt("2001:db8::%x", v & 0xffff) };
+            for (int i = 0; i < 4; ++i) { IPv6Address a(c6[(i + v) % 4]); h = Hu(h, (a.is_loopback() ? 1 : 0) | (a.is_multicast() ? 2 : 0) | (a.is_local_unicast() ? 4 : 0)); }
+            HWAddress<6> m(fmt("%02x:11:22:33:44:55", v & 0xff)); h = Hu(h, (m.is_broadcast() ? 1 : 0) | (m.is_multicast() ? 2 : 0) | (m.is_unicast() ? 4 : 0));
+        }
+        else if (op == "userpdu") {     // frames whose upper layer is an application-defined PDU type registered before the threads started
+            uint32_t v = (uint32_t)k.u64("v"); Bytes pl = k.bytes("pl");
+            for (int i = 0; i < 3; ++i) { const bool second = ((v >> i) & 1) != 0;
+                if ((v >> 8) & 1) { IP ip = IP("10.0.0.2", "10.0.0.1") / RawPDU(pl.data(), (uint32_t)pl.size()); ip.protocol(second ? 254 : 253); PDU::serialization_type sb = ip.serialize(); sb[9] = second ? 254 : 253; IP back(sb.data(), (uint32_t)sb.size()); h = Hu(h, back.inner_pdu() ? (uint64_t)back.inner_pdu()->pdu_type() : 0); h = Hu(h, back.inner_pdu() ? back.inner_pdu()->size() : 0); if (!back.inner_pdu() || back.inner_pdu()->pdu_type() != (PDU::PDUType)(PDU::USER_DEFINED_PDU + (second ? 2 : 1))) h = Hu(h, 0xbad); }
+                else { Bytes f(14, 0); f[12] = 0x88; f[13] = second ? 0xb6 : 0xb5; f.insert(f.end(), pl.begin(), pl.end()); EthernetII back(f.data(), (uint32_t)f.size()); h = Hu(h, back.inner_pdu() ? (uint64_t)back.inner_pdu()->pdu_type() : 0); if (!back.inner_pdu() || back.inner_pdu()->pdu_type() != (PDU::PDUType)(PDU::USER_DEFINED_PDU + (second ? 4 : 3))) h = Hu(h, 0xbad); } }
         }
         else if (op == "build") {
             uint32_t v = (uint32_t)k.u64("v"); EthernetII e = EthernetII("00:01:02:03:04:05", "00:0a:0b:0c:0d:0e") / IP(IPv4Address(fmt("10.1.%u.%u", v & 0xff, (v >> 8) & 0xff)), IPv4Address("10.0.0.1")) / TCP((uint16_t)(v >> 16), 1000) / RawPDU(fmt("payload-%u", v));
@@ -331,7 +368,8 @@ struct ThrEngine : Engine {
                             if (cfg.chance(0.5)) { k.set("op", "pmk").set("psk", fmt("pass%llu", (unsigned long long)(cfg.next() % 100000))).set("ssid", fmt("net%llu", (unsigned long long)(cfg.next() % 1000))); break; }
                             k.set("op", "wpa2").set("set", cfg.chance(0.4) ? "ccmp_packets" : cfg.chance(0.5) ? "tkip_packets" : "ccmp_qos_packets"); break;
                     case 4: k.set("op", "dns").set("id", (int64_t)cfg.range(0, 65535)).set("n", (int64_t)cfg.range(1, 6)); break;
-                    case 5: k.set("op", "addr").setu("v", cfg.next() & 0xffffffffu); break;
+                    case 5: { Rng ax = root.fork(fmt("addrx%d.%d", t, i).c_str()); int sel = (int)ax.below(10); if (sel < 3) { k.set("op", "addrclass").setu("v", ax.next() & 0xffffffffu); break; } if (sel < 6) { k.set("op", "userpdu").setu("v", ax.next() & 0xffffffffu).set("pl", ax.bytes((size_t)ax.range(1, 60))); break; } }
+                        k.set("op", "addr").setu("v", cfg.next() & 0xffffffffu); break;
                     case 6: if (cfg.chance(0.25)) { k.set("op", "legacy").setu("v", cfg.next() & 0xffffffffu); break; } k.set("op", "build").setu("v", cfg.next() & 0xffffffffu); break;
                     default: { if (cfg.chance(0.2)) { k.set("op", "wep").set("bad", cfg.chance(0.3) ? 1 : 0); break; }
                         TcpSeg s; s.sport = 1000; s.dport = 80; s.seq = 100 + (uint32_t)(i * 10); s.ack = 1; s.flags = i == 0 ? TH_SYN : (TH_ACK | TH_PSH); if (i) s.payload = wl.bytes(10); Addr a = Addr::v4(10, 0, (uint8_t)t, 1), b = Addr::v4(10, 0, (uint8_t)t, 2); if (i == 0) s.seq = 109 - 10;
@@ -357,7 +395,7 @@ struct ThrEngine : Engine {
             const int dl[7] = { gen::DLT_EN10MB_, gen::DLT_RAW_, gen::DLT_IEEE802_11_, gen::DLT_IEEE802_11_RADIO_, gen::DLT_LINUX_SLL_, gen::DLT_NULL_, gen::DLT_PPI_ };
             for (int i = 0; i < 7; ++i) for (int j = 0; j < 40; ++j) { gen::Frame f = gen::frame_for(wr, dl[i]); KV k; k.set("op", "parse").set("dlt", dl[i]).set("f", f.bytes); run_op(k, ts, 0); }
             const char* sets[3] = { "ccmp_packets", "tkip_packets", "ccmp_qos_packets" }; for (int i = 0; i < 3; ++i) { KV k; k.set("op", "wpa2").set("set", sets[i]); run_op(k, ts, 0); }
-            { KV k; k.set("op", "frag").set("pl", Bytes(64, 1)).set("mtu", 16).set("id", 1).set("ord", 0); run_op(k, ts, 0); KV d; d.set("op", "dns").set("id", 1).set("n", 2); run_op(d, ts, 0); KV a; a.set("op", "addr").setu("v", 12345); run_op(a, ts, 0); KV b; b.set("op", "build").setu("v", 777); run_op(b, ts, 0); { KV lg; lg.set("op", "legacy").setu("v", 5); run_op(lg, ts, 0); } KV w; w.set("op", "wep").set("bad", 0); run_op(w, ts, 0);
+            { KV k; k.set("op", "frag").set("pl", Bytes(64, 1)).set("mtu", 16).set("id", 1).set("ord", 0); run_op(k, ts, 0); KV d; d.set("op", "dns").set("id", 1).set("n", 2); run_op(d, ts, 0); KV a; a.set("op", "addr").setu("v", 12345); run_op(a, ts, 0); { KV ac; ac.set("op", "addrclass").setu("v", 54321); run_op(ac, ts, 0); KV up; up.set("op", "userpdu").setu("v", 0x1ff).set("pl", Bytes(8, 7)); run_op(up, ts, 0); up.setu("v", 0x0aa); run_op(up, ts, 0); } KV b; b.set("op", "build").setu("v", 777); run_op(b, ts, 0); { KV lg; lg.set("op", "legacy").setu("v", 5); run_op(lg, ts, 0); } KV w; w.set("op", "wep").set("bad", 0); run_op(w, ts, 0);
               KV p; p.set("op", "pmk").set("psk", "warmup-pass").set("ssid", "warmup-net"); run_op(p, ts, 0);
               TcpSeg sg; sg.sport = 1; sg.dport = 2; sg.seq = 5; sg.flags = TH_SYN; KV fo; fo.set("op", "follow").set("ts", 1).set("f", tcp_frame(sg, Addr::v4(1, 1, 1, 1), Addr::v4(2, 2, 2, 2), Mac::of(1), Mac::of(2))); run_op(fo, ts, 0); }
             ts = ThreadState(); mon::tl_logical = -1; } }
@@ -366,7 +404,9 @@ struct ThrEngine : Engine {
         auto concurrent = [&]() {
             std::vector<std::function<void()> > bodies; for (int t = 0; t < K; ++t) bodies.push_back([&, t]() { ThreadState ts; uint64_t h = 0xC18; mon::tl_logical = t; for (auto& k : ops[t]) h = run_op(k, ts, h); mon::tl_logical = -1; con[t] = h; });
             mon::on = true; sched::run(bodies, p.cfg.u64("sched", 1), (int)p.cfg.num("blo", 1), (int)p.cfg.num("bhi", 1000)); mon::on = false; };
+        snap::take();
         if (p.cfg.num("seqfirst")) { sequential(); concurrent(); } else { concurrent(); sequential(); }
+        const std::string static_changed = snap::changed(); st.inc("chk.library_static_objects_unchanged", (uint64_t)snap::objs.size());
         st.inc("chk.thread_digest", (uint64_t)K); st.inc("fault.context_switch", sched::switches); st.inc("probe.scheduler_steps", sched::steps);
         st.inc("probe.static_reads", mon::n_static_reads); st.inc("probe.static_writes_unguarded", mon::n_static_writes); st.inc("probe.static_writes_in_guarded_init", mon::n_guarded_writes); st.inc("probe.cross_thread_heap_accesses", mon::n_cross_heap); st.inc("probe.accesses_to_memory_allocated_outside_threads", mon::n_other_heap);
         tr.add(fmt("threads=%d steps=%llu switches=%llu schedhash=%llu", K, (unsigned long long)sched::steps, (unsigned long long)sched::switches, (unsigned long long)sched::sched_hash));
@@ -374,6 +414,7 @@ struct ThrEngine : Engine {
         // (a global registry or cache that grows with use): hidden shared state, whatever the access pattern of this particular run
         { int64_t kept = 0; int who = -1; for (int t = 0; t < K && t < arena::LIFETIME; ++t) if (arena::live_blocks[t] > 0) { kept += arena::live_blocks[t]; who = t; } st.inc("chk.thread_allocations_released");
           if (kept > 0) return Verdict::bad("thr:thread-allocations-retained-by-library", fmt("%lld heap blocks allocated by the calls of thread %d are still referenced after all of the thread's objects were destroyed", (long long)kept, who)); }
+        if (!static_changed.empty()) { std::string first = static_changed.substr(0, static_changed.find(';')); for (char& c : first) if (c == ' ') c = '_'; return Verdict::bad("thr:static-object-changed:" + first, "static object(s) of the library hold other contents after the threads' calls than before them (process-wide mutable state behind calls on thread-private objects): " + static_changed); }
         // (a) shared-access rule
         std::set<std::string> shared, read_syms;
         for (size_t i = 0; i < mon::TAB; ++i) { const mon::Ent& e = mon::tab[i]; if (!e.a) continue; st.inc("chk.static_location");
